@@ -507,6 +507,8 @@ void RouterSession::checkNudging(const char *when) {
                             // classifier (KF-C10-l): the stretch the two shared in the raw routes was shifted as a whole (centred in its
                             // channel) and the two were left on top of each other on the new line
                             else if (rawShared && std::fabs(c0 - rawC) > 1e-6) sig += ":the-shared-stretch-was-shifted-as-a-whole";
+                            // (KF-C10-m) ... or was left exactly where the raw routes had it although one of the two segments is interior
+                            else if (rawShared) sig += ":the-shared-stretch-stayed-on-its-raw-line";
                         }
                     }      // created by the centring / unifying pre-processing, then not removed
                     std::string ra, rb; for (auto &qq : raw[i]) ra += fmt("(%g,%g)", qq.x, qq.y); for (auto &qq : raw[j]) rb += fmt("(%g,%g)", qq.x, qq.y);
